@@ -148,9 +148,15 @@ Definition show_replies (rs : list (list N)) : string :=
   | [] => "-"
   | _ => concat "," (map (fun r => match r with [] => "-" | _ => show_bytes r end) rs)
   end.
-Definition case := (link * list (N * pstate) * auth_cfg * list frame)%type.
+(* a case: link, unit id -> handler object index (ascending unit id), the handler objects with their
+   initial states, authorization, frames. Unit ids that share an object have the same index. *)
+Definition case := (link * list (N * N) * list (N * pstate) * auth_cfg * list frame)%type.
+Definition empty_pstate : pstate :=
+  {| p_m := 0; p_c := 0; p_rex := []; p_wex := []; p_coils := []; p_discrete := []; p_holding := []; p_input := [] |}.
+Definition mkunits (m : list (N * N)) (hs : list (N * pstate)) : ucfg pstate :=
+  {| u_map := m; u_store := fun h => match assoc h hs with Some s => s | None => empty_pstate end |}.
 
 Definition run_spec (c : case) : string :=
-  let '(l, units, a, frames) := c in
-  let '(rs, _, log) := ref_session prog l (auth_spec a) units frames in
+  let '(l, m, hs, a, frames) := c in
+  let '(rs, _, log) := ref_session prog l (auth_spec a) (mkunits m hs) frames in
   show_replies rs ++ "|" ++ show_log log ++ "|open".
